@@ -7,6 +7,9 @@ the feasible alternatives and later re-runs body from the start replaying the
 recorded prefix.  Each decision / assumption is one push level on the solver,
 so the common prefix between consecutive paths is reused.
 """
+import os
+import subprocess
+import tempfile
 import time
 import z3
 
@@ -43,6 +46,40 @@ class Stats:
         return dict(self.__dict__)
 
 
+# second-opinion sampling: every VERIF_XCHECK-th query is written out as SMT-LIB2 and decided again by cvc5 and by the system z3 4.8.12
+XCHECK = dict(period=int(os.environ.get('VERIF_XCHECK', '0') or 0), count=0, sampled=0, agree=0, disagree=[], inconclusive=0)
+
+
+def second_opinion(solver, extra, verdict):
+    s2 = z3.Solver()
+    s2.add(solver.assertions())
+    for e in extra:
+        s2.add(e)
+    text = '(set-logic ALL)\n' + s2.to_smt2()
+    XCHECK['sampled'] += 1
+    with tempfile.NamedTemporaryFile('w', suffix='.smt2', delete=False) as f:
+        f.write(text)
+        path = f.name
+    try:
+        for cmd in (['cvc5', '--lang=smt2', '--tlimit=20000', path], ['/usr/bin/z3', '-T:20', '-smt2', path]):
+            try:
+                r = subprocess.run(cmd, capture_output=True, text=True, timeout=40)
+                out = r.stdout.strip().splitlines()
+            except Exception:
+                out = []
+            ans = next((l.strip() for l in out if l.strip() in ('sat', 'unsat', 'unknown')), None)
+            if any(l.startswith('(error') for l in out) or ans in (None, 'unknown'):
+                XCHECK['inconclusive'] += 1
+            elif (ans == 'sat') == verdict:
+                XCHECK['agree'] += 1
+            else:
+                keep = path + '.disagree'
+                open(keep, 'w').write(text)
+                XCHECK['disagree'].append(dict(solver=cmd[0], z3_new='sat' if verdict else 'unsat', other=ans, query=keep))
+    finally:
+        os.unlink(path)
+
+
 class Explorer:
     def __init__(self, timeout_ms=60000, max_paths=2000000, deadline=None):
         self.solver = z3.Solver()
@@ -69,6 +106,10 @@ class Explorer:
         else:
             self.stats.unknown += 1
             raise Inconclusive('solver returned unknown (%s)' % self.solver.reason_unknown())
+        if XCHECK['period']:
+            XCHECK['count'] += 1
+            if XCHECK['count'] % XCHECK['period'] == 0:
+                second_opinion(self.solver, extra, r == z3.sat)
         return r == z3.sat
 
     def pop_to(self, depth):
